@@ -54,11 +54,11 @@ CHECKS = {
    design_ref="DESIGN.md 5/C13",
    note="serde_json with float_roundtrip is the carrier; indicator instances/configs are added with the indicator registry."),
  "C16": dict(
-   technique="TLA+ specification of the Action algebra checked completely by TLC (513 actions, 263169 pairs, edge triples, From<f64> grid) with the complete tables replayed on the real type",
+   technique="TLA+ specification of the Action algebra checked completely by TLC (513 actions, 263169 pairs, edge triples, From<f64> grid) with the complete tables replayed on the real type; TLA+ trace validation (Trace_ActionSteps, exact big-integer arithmetic) of From<f32> as a step function over EVERY f32 bit pattern and of From<f64> on windows of consecutive patterns around every break point",
    category="model_checking",
-   text="spec/Action.tla gives every conversion and operator as coded and the ratio algebra as laws; TLC checks all actions/pairs/triples and the From<f64> step function on every k/1020; laws the as-coded model violates are listed pair by pair and confirmed on the real type before being reported. TLC prints, per action, neg/ratio/analog/sign and the Sub/Eq/Cmp rows against all 513 actions, and the From<f64>/<f32> grid; the harness evaluates the same complete tables on the real type.",
+   text="spec/Action.tla gives every conversion and operator as coded and the ratio algebra as laws; TLC checks all actions/pairs/triples and the From<f64> step function on every k/1020; laws the as-coded model violates are listed pair by pair and confirmed on the real type before being reported. TLC prints, per action, neg/ratio/analog/sign and the Sub/Eq/Cmp rows against all 513 actions, and the From<f64>/<f32> grid; the harness evaluates the same complete tables on the real type. Direction B: the harness visits all 4 278 190 082 non-NaN f32 patterns in numeric order (and all 16 777 214 NaNs; Option / reference forms on a subsample), records the maximal runs of equal results with their end points as exact dyadic rationals, and Trace_ActionSteps decides every run (both end points map to the run's action under the specified real-valued step function, runs tile the line from -inf to +inf); the same for f64 on +-3000 (quick) / +-200000 (thorough) consecutive patterns around each of the 256 break points (2k+1)/510, 256 fixed points k/255, +-1, +-0, subnormals, +-inf.",
    design_ref="DESIGN.md 5/C16",
-   note="All 2^32 f32 patterns are swept in the thorough tier by the harness and summarised as intervals validated against the rational break points."),
+   note="Between the two end points of a run the implementation was observed at every pattern; the specification is monotone there by construction. f64 admits either neighbour within 2^-43 of a tie (the product v*255 is rounded once)."),
 
  "C18": dict(
    technique="TLA+ model checking on complete grids (validate, true-range identity, candle aggregation) and a TLA+ grammar of the text forms, all rows replayed on the real types; trace validation of the numeric helpers in exact fixed point",
@@ -124,9 +124,9 @@ CHECKS = {
    design_ref="DESIGN.md 5/C19",
    note="Memory safety is claimed for the explored state space (model + conformance), not in general; Miri is an auxiliary monitor."),
  "C20": dict(
-   technique="identical transcripts across PeriodType builds for parameters that fit u8; TLA+ trace validation with PMAX = 65535 for lengths beyond 255 and with eps = 2^-23 for the f32 build; MC_Window with 16-bit period arithmetic",
+   technique="identical transcripts across PeriodType builds for parameters that fit u8; TLA+ trace validation with PMAX = 65535 for lengths beyond 255 and with eps = 2^-23 for the f32 build; MC_Window with 16-bit period arithmetic; TLAPS proofs (Window_proofs.tla, 129 obligations) of the ring arithmetic for an arbitrary PeriodType width",
    category="model_checking",
-   text="(a) u16/u32 (thorough: u64, u16+unsafe) builds produce byte-identical transcripts to the default build for ten recorders pinned to PMAX = 255 (incl. boundary lengths up to PeriodType::MAX for the windowless methods, and adversarial documents offered to Deserialize); (b) on the u16 build, windows up to 999 and methods with lengths up to 999/399/299 (HMA beyond 255) are validated by Trace_Window / Trace_Tok / Trace_Num with PMAX = 65535; MC_Window re-checked with PMAX = 65535 for capacities 254..257, 300, 1000; (c) the value_type_f32 build is validated by Trace_Num with the single-precision allowance and by Trace_Tok (selections, medians, reversals on mixed-sign tokens), and MC_Action's From<float> step function (every k/1020, special values) is replayed on Action::from(ValueType) of that build.",
+   text="(a) u16/u32 (thorough: u64, u16+unsafe) builds produce byte-identical transcripts to the default build for ten recorders pinned to PMAX = 255 (incl. boundary lengths up to PeriodType::MAX for the windowless methods, and adversarial documents offered to Deserialize); (b) on the u16 build, windows up to 999 and methods with lengths up to 999/399/299 (HMA beyond 255) are validated by Trace_Window / Trace_Tok / Trace_Num with PMAX = 65535; MC_Window re-checked with PMAX = 65535 for capacities 254..257, 300, 1000, and the ring lemmas (construction, slice_index = cell of the element pushed i steps ago or None, push overwrites the oldest cell without overflow and ages everything by one, newest/oldest cells, both iterator cursors) are machine-checked by tlapm for EVERY PMAX >= 3 and every capacity over the same definitions (spec/WindowCore.tla) that TLC checks; (c) the value_type_f32 build is validated by Trace_Num with the single-precision allowance and by Trace_Tok (selections, medians, reversals on mixed-sign tokens), and MC_Action's From<float> step function (every k/1020, special values) is replayed on Action::from(ValueType) of that build.",
    design_ref="DESIGN.md 5/C20",
    note="Generators are pinned through YV_PMAX so that programs are the same across builds."),
 }
